@@ -18,17 +18,17 @@ Sampled on grids (the function spaces are not finite):
 import numpy as np
 
 from ..ctx import digest
-from ..snap import snap
+from ..snap import snap, obs_digest
 from ..compare import compare_obs
 from ..ref import dense, tables, specfun
 
 ID = 'C20'
 LEVEL = 'exploration'
 EXHAUSTIVE = True
-DECIDING = ['algebra_relations', 'grid_tags_known', 'grid_tags_rejected', 'eps3_tuples', 'eps4_tuples',
+DECIDING = ['constant_table_checks', 'held_results_rechecked', 'algebra_relations', 'grid_tags_known', 'grid_tags_rejected', 'eps3_tuples', 'eps4_tuples',
             'eps_rejected', 'kn_applications', 'special_applications']
 RULE = ('tables: enumerated completely on every run (16 Clifford pairs x 2 spellings + 19 further relations, 16 + 32 Grid tags, '
-        '125 + 625 + 58 index tuples, each as Python ints and numpy integers) - exhaustive; a table entry is non-trivial when a non-zero '
+        '125 + 625 + 32 index tuples, each as Python ints, numpy int8/16/32/64/intp, uint8/16/32/64, elements of an int32 array, a list, mixed signed types and bools where the index is 0/1) - exhaustive; the constant tables are compared with their state at import after every case, Grid structures and special-function results are held and re-checked after later calls; a table entry is non-trivial when a non-zero '
         'sign / a non-zero matrix was compared or a rejection was required, distinct = the entry itself. '
         'K_n and the 30 other special functions are SAMPLED: orders 0..6 on each point of a log grid of arguments in (0.05, 20) (200 quick / 2000 thorough, '
         'jittered by the seed), other functions on 20 (quick) / 120 (thorough) points per parameter choice inside the domain; argument observables on one chain, '
@@ -55,7 +55,7 @@ TAGS = [('known', t) for t in tables.GRID_TAGS] + [('unknown', t) for t in table
 EPS3 = tables.all_tuples(3)
 EPS4 = tables.all_tuples(4)
 EPS_OUT = ([(5, 1, 2), (1, 5, 2), (1, 2, 5), (-1, 0, 1), (0, -1, 1), (0, 1, -1), (7, 7, 7), (-1, -1, -1), (3, 4, 5), (-1, 1, 2), (1, 2, -3),
-            (2, 3, 4), (4, 3, 2), (0, 3, 4)] +
+            (2, 3, 4), (4, 3, 2), (0, 3, 4), (10 ** 20, 1, 2), (1, 2, -10 ** 20), (2 ** 63, 2 ** 63 + 1, 2 ** 63 + 2)] +
            [(5, 1, 2, 3), (1, 5, 2, 3), (1, 2, 5, 3), (1, 2, 3, 5), (-1, 0, 1, 2), (0, -1, 1, 2), (0, 1, -1, 2), (0, 1, 2, -1),
             (7, 7, 7, 7), (2, 3, 4, 5), (-1, 1, 2, 3), (5, 4, 3, 2), (0, 1, 2, 4), (4, 0, 1, 2), (0, 2, 3, 4)])
 
@@ -119,13 +119,46 @@ def setup(ctx):
     gone = sorted((set(SPEC) | {'kn'}) - set(pe.special.__all__))
     if gone:
         ctx.violation('special:function-no-longer-re-exported', {'names': gone})
+    for n in CONSTANTS:
+        CONST0[n] = np.array(getattr(pe.dirac, n)).copy()
     if ctx.shard == 0:
         specfun.self_test()          # reference against itself (difference quotient vs mpmath.diff, recurrence vs besselk)
         ctx.count('reference_self_tests')
 
 
+CONSTANTS = ['gammaX', 'gammaY', 'gammaZ', 'gammaT', 'gamma', 'gamma5', 'identity']
+CONST0 = {}
+HELD = []
+
+
+def check_constants(ctx):
+    """the library's constant tables must be what they were at import time, whatever has been called since"""
+    for n in CONSTANTS:
+        ctx.ev()
+        ctx.count('constant_table_checks')
+        now = getattr(PE.dirac, n)
+        if not (np.shape(now) == CONST0[n].shape and np.array_equal(now, CONST0[n])):
+            ctx.violation('table:constant-changed-by-a-call:' + n, {'now': repr(np.asarray(now).tolist()), 'at_import': repr(CONST0[n].tolist())})
+
+
+def hold_result(mech, res):
+    HELD.append((mech, res, obs_digest(res)))
+    if len(HELD) > 40:
+        del HELD[:10]
+
+
+def check_held(ctx):
+    """observables handed out by earlier applications must not change when later ones are made"""
+    for mech, res, dg in HELD:
+        ctx.ev()
+        ctx.count('held_results_rechecked')
+        if obs_digest(res) != dg:
+            ctx.violation(mech + ':result-changed-by-later-calls', {'value_now': repr(res.value)})
+
+
 def teardown(ctx):
-    pass
+    check_constants(ctx)
+    check_held(ctx)
 
 
 def plan(tier):
@@ -258,13 +291,51 @@ def run_tag(ctx, row):
         ctx.violation('Grid_gamma:unknown-tag-accepted', {'tag': repr(tag), 'returned': repr(got)})
 
 
+SIGNED_FORMS = ['int', 'np.int64', 'np.int8', 'np.int16', 'np.int32', 'np.intp', 'elements-of-int32-array', 'elements-of-list', 'mixed-signed', 'bool-where-0/1']
+UNSIGNED_FORMS = ['np.uint8', 'np.uint16', 'np.uint32', 'np.uint64']
+
+
+def index_forms(t):
+    """the same index tuple in the representations a caller may hold it in"""
+    out = []
+    for form in SIGNED_FORMS + UNSIGNED_FORMS:
+        if form == 'int':
+            args = tuple(int(i) for i in t)
+        elif form.startswith('np.'):
+            if form.startswith('np.uint') and min(t) < 0:
+                continue
+            try:
+                args = tuple(getattr(np, form[3:])(i) for i in t)
+            except OverflowError:
+                continue                      # the dtype cannot hold this index
+        elif form == 'elements-of-int32-array':
+            try:
+                args = tuple(np.array(t, dtype=np.int32))
+            except OverflowError:
+                continue
+        elif form == 'elements-of-list':
+            args = list(t)
+        elif form == 'mixed-signed':
+            kinds = [int, np.int8, np.int64, np.int16]
+            try:
+                args = tuple(kinds[(n + sum(t)) % 4](i) for n, i in enumerate(t))
+            except OverflowError:
+                continue
+        else:
+            if not any(i in (0, 1) for i in t):
+                continue
+            args = tuple(bool(i) if i in (0, 1) else int(i) for i in t)       # True == 1, False == 0 as indices
+        out.append((form, args))
+    return out
+
+
 def run_eps(ctx, t, counter):
     fn = PE.dirac.epsilon_tensor if len(t) == 3 else PE.dirac.epsilon_tensor_rank4
     rank = len(t)
     what, sign = tables.eps_expected(t)
-    for form in ('int', 'np.int64'):
-        args = tuple(int(i) for i in t) if form == 'int' else tuple(np.int64(i) for i in t)
+    for form, args in index_forms(t):
         ctx.ev()
+        ctx.cell('eps%d' % rank, 'form', form)
         if what == 'raise':
             ctx.cell('eps%d' % rank, 'rejected')
             try:
@@ -288,14 +359,18 @@ def run_eps(ctx, t, counter):
             except Exception:
                 ok = False
             if not ok:
-                ctx.violation('epsilon%d:wrong-sign' % rank, {'tuple': list(t), 'form': form, 'got': repr(got), 'expected': sign})
+                if form in UNSIGNED_FORMS:
+                    # cause named from the witness: every index is an unsigned numpy integer, so the differences wrapped around
+                    ctx.violation('epsilon%d:unsigned-index-dtype-wraps-around' % rank, {'tuple': list(t), 'form': form, 'got': repr(got), 'expected': sign})
+                else:
+                    ctx.violation('epsilon%d:wrong-sign' % rank, {'tuple': list(t), 'form': form, 'got': repr(got), 'expected': sign})
     ctx.count(counter)
     if what == 'raise':
         ctx.count('eps_rejected')
     if what == 'raise' or sign != 0:
         ctx.nontrivial.add(digest('eps', tuple(t)))
     if t in ((1, 2, 3), (2, 1, 3, 4), (0, 1, 3), (0, 4, 1, 2)):
-        ctx.sample({'tuple': list(t), 'expected': what if what == 'raise' else sign})
+        ctx.sample({'tuple': list(t), 'expected': what if what == 'raise' else sign, 'forms': [f for f, _ in index_forms(t)]})
 
 
 # ------------------------------------------------------------------------------------------
@@ -321,11 +396,15 @@ def make_arg(rng, x, width, variant, ens):
     return o
 
 
-def build_args(rng, xs, doms, variant):
+def build_args(rng, xs, doms, variant, wf=2e-3, same_object=False):
+    """argument observables; chains on names that share a prefix ('A', 'AB', 'A1'); wf = relative spread of the samples;
+    same_object: one observable in every argument slot"""
     args = []
     for k, (x, (lo, hi)) in enumerate(zip(xs, doms)):
-        width = 2e-3 * min(x - lo, hi - x, max(abs(x), 0.05))
-        args.append(make_arg(rng, x, width, variant, 'AB'[k] if k < 2 else 'ens'))
+        width = wf * min(x - lo, hi - x, max(abs(x), 0.05))
+        args.append(make_arg(rng, x, width, variant, ['A', 'AB', 'A1'][k % 3]))
+    if same_object:
+        args = [args[0]] * len(args)
     ins = [snap(a) for a in args]
     return args, ins, [s['value'] for s in ins]
 
@@ -366,6 +445,7 @@ def apply_and_judge(ctx, name, consts, args, ins, vals, vtol, dtol, libcall, mec
     compare_obs(ctx, res, ref, mech, rtol=dtol, vtol=vtol, rv_tol=vtol, what='%s%r at %r' % (name, tuple(consts), vals), scale=scale,
                 value_scale=vscale, extra={'reference_value': ref['value'], 'reference_gradient': grads})
     ctx.cell('special', name, variant)
+    hold_result(mech, res)
     if any(g != 0.0 for g in grads):
         ctx.nontrivial.add(digest(name, consts, [repr(v) for v in vals], variant))
     return res, ref, grads
@@ -379,7 +459,8 @@ def run_kn(ctx, idx, rng):
     x = 0.05 * (20.0 / 0.05) ** u
     x = min(max(x, 0.0505), 19.9)
     variant = VARIANTS[idx % len(VARIANTS)]
-    args, ins, vals = build_args(rng, [x], [(0.05, 20.0)], variant)
+    wf = [2e-3, 2e-3, 1e-9, 2e-2][idx % 4 if idx % 3 else 0]
+    args, ins, vals = build_args(rng, [x], [(0.05, 20.0)], variant, wf=wf)
     sp = PE.special
     tabs = {}
 
@@ -399,6 +480,15 @@ def run_kn(ctx, idx, rng):
         ctx.cell('kn', 'n=%d' % n, 'decade=%d' % int(np.floor(np.log10(x))))
         if n == 2:
             ctx.sample({'function': 'kn', 'n': n, 'x': vals[0], 'variant': variant, 'value': res.value, 'reference_value': ref['value'], 'dK/dx': grads[0]})
+    # a second observable with exactly the same central value but other content (a result cached by the value would be wrong)
+    twin = args[0] + PE.cov_Obs(0.0, (1e-3 * vals[0]) ** 2, 'cv_twin') if idx % 2 else PE.cov_Obs(float(vals[0]), (3e-3 * vals[0]) ** 2, 'cv_twin')
+    tins = [snap(twin)]
+    if tins[0]['value'] == vals[0]:
+        for n in (KN_ORDERS[idx % 7], KN_ORDERS[(idx + 3) % 7]):
+            apply_and_judge(ctx, 'kn', (n,), [twin], tins, [tins[0]['value']], 1e-11, 1e-10, lambda v, **kw: sp.kn(n, v[0]), 'kn', 'twin-same-value',
+                            valfn=lambda v, n=n: table(v[0])[n], gradfn=lambda vv, n=n: [specfun.kn_derivative_from_table(table(vv[0]), n)])
+            ctx.count('kn_applications')
+            ctx.count('kn_twin_same_value')
     if idx % 16 == 0:
         # the reference against itself at this argument: recurrence table vs direct evaluation, closed-form derivative vs difference quotient
         n = KN_ORDERS[(idx // 16) % len(KN_ORDERS)]
@@ -446,7 +536,11 @@ def run_special(ctx, idx, rng):
     else:
         def libcall(v, **kw):
             return f(*(tuple(consts) + (v[0],)))
-    args, ins, vals = build_args(rng, xs, doms, variant)
+    same = len(doms) > 1 and j % 5 == 4
+    if same:
+        variant = 'same-object-in-all-slots'
+        ctx.count('same_object_in_all_slots')
+    args, ins, vals = build_args(rng, xs, doms, variant if not same else 'one-chain', wf=[2e-3, 1e-9, 2e-3, 2e-2][j % 4], same_object=same)
     res, ref, grads = apply_and_judge(ctx, name, consts, args, ins, vals, vtol, dtol, libcall, 'special:' + name, variant)
     ctx.count('special_applications')
     if res is None:
@@ -456,6 +550,15 @@ def run_special(ctx, idx, rng):
 
 
 def run_case(ctx, kind, idx, rng):
+    try:
+        run_case_inner(ctx, kind, idx, rng)
+    finally:
+        check_constants(ctx)
+        if kind in ('kn', 'special'):
+            check_held(ctx)
+
+
+def run_case_inner(ctx, kind, idx, rng):
     if kind == 'algebra':
         run_algebra(ctx, ALGEBRA[idx])
     elif kind == 'grid_tag':
